@@ -283,8 +283,11 @@ def mon_c13(script, res):
     cur = [0] * n
     pids = [0] * n
     open_reqs = {}      # req -> dict(kind, i, wait, state_at_req, forked, running_seen, kills)
+    waited = set()
     for e in res['trace']:
         k = e[0]
+        if k == 'wait':
+            waited.add(e[1])
         if k == 'req':
             _, req, what, a, b = e
             if what in ('start', 'stop', 'signal') and 0 <= a < n:
@@ -330,6 +333,8 @@ def mon_c13(script, res):
                     return 'stopProcess(p%d) answered true for a process in state %s' % (r['i'], r['st'])
                 if code == 0 and r['arg'] == 1 and cur[r['i']] not in (0, 100, 200, 1000):
                     return 'stopProcess(p%d, wait=true) answered true while the process is in state %s' % (r['i'], cur[r['i']])
+                if code == 0 and r['arg'] == 1 and cur[r['i']] == 1000 and pids[r['i']] and pids[r['i']] not in waited:
+                    _known('C13-stop-unknown')
             elif r['kind'] == 'signal':
                 if code == 0:
                     mine = [x for x in r['kills'] if abs(x[1]) == pids[r['i']]]
@@ -485,7 +490,7 @@ def alphabet(U, which):
         'C04': ['+1s', '+half', '+big', '-jump', 'stop', 'stopw', 'exit1', 'eperm', 'start', 'poll'],
         'C05': ['+1s', '+big', 'term', 'exit1', 'start', 'stop', 'forkfail', '-jump', 'poll', 'stopw'],
         'C06': ['+1s', 'eperm', 'forkfail', 'pipefail', 'exit1', 'sigdie', 'stop', 'start', 'term', '-jump'],
-        'C13': ['+1s', '+big', 'start', 'startw', 'stop', 'stopw', 'poll', 'exit1', 'forkfail', 'eperm'],
+        'C13': ['+1s', '+big', 'start', 'startw', 'stop', 'stopw', 'poll', 'exit1', 'forkfail', 'eperm', 'stopweperm'],
     }[which]
     return [a for a in full if a[0] in names]
 
@@ -863,6 +868,8 @@ def _run(chk, which, prop_rel, proved, wd):
     texts = {
         'C13-start-stopping': ('C13', 'startProcess(name, wait=false) on a STOPPING process answers true although no child is forked '
                                       '(spawn() returns early because the old child is still there)'),
+        'C13-stop-unknown': ('C13', 'stopProcess(name, wait=true) answers true for a process whose kill failed (state UNKNOWN, which counts '
+                                    'as stopped) although its child has not been reaped'),
         'C03-no-positive-lifetime': ('C03', 'a child reaped at a clock reading not greater than its (rollback-adjusted) start reading is '
                                             'treated as a successful start although it lived less than startsecs'),
     }
